@@ -46,6 +46,32 @@ func BuildUnits(p PubPlan) []media.Unit {
 				if n < 1 {
 					n = 1
 				}
+				hevc := p.VideoCodec == media.CodecHEVC
+				for _, x := range s.Extra {
+					switch x {
+					case 'a':
+						if hevc {
+							u.Nals = append(u.Nals, []byte{35 << 1, 1, 0x50})
+						} else {
+							u.Nals = append(u.Nals, []byte{0x09, 0xf0})
+						}
+					case 'p':
+						if hevc {
+							v, sp, pp := media.HevcParamSets(p.Inc, gen)
+							u.Nals = append(u.Nals, v, sp, pp)
+						} else {
+							sp, pp := media.AvcParamSets(p.Inc, gen)
+							u.Nals = append(u.Nals, sp, pp)
+						}
+					case 's':
+						if hevc {
+							u.Nals = append(u.Nals, media.HevcNal(39, 0, 1, p.Inc, i, 90, 1+(s.Size*7)%90))
+						} else {
+							u.Nals = append(u.Nals, media.AvcNal(6, 0, p.Inc, i, 90, 1+(s.Size*7)%90))
+						}
+					}
+				}
+				defer0 := strings.Contains(s.Extra, "x")
 				for j := 0; j < n; j++ {
 					sz := s.Size
 					if j > 0 {
@@ -66,6 +92,13 @@ func BuildUnits(p PubPlan) []media.Unit {
 						nal = media.AvcNal(t, 3, p.Inc, i, j, sz)
 					}
 					u.Nals = append(u.Nals, nal)
+				}
+				if defer0 {
+					if hevc {
+						u.Nals = append(u.Nals, media.HevcNal(40, 0, 1, p.Inc, i, 91, 1+(s.Size*3)%40))
+					} else {
+						u.Nals = append(u.Nals, media.AvcNal(12, 0, p.Inc, i, 91, 1+(s.Size*3)%40)) // filler data
+					}
 				}
 				codec := p.VideoCodec
 				if codec == 0 {
@@ -130,6 +163,11 @@ func (c *ConsState) JoinDoneStep() int {
 	if c.Push != nil {
 		if !c.Push.Started {
 			return -1
+		}
+		// lal attaches the push session to the group only after it has read the target's answer to `publish`, on a
+		// goroutine of its own; from outside the earliest certain instant is the first message it pushes
+		if len(c.Push.Recv) > 0 && c.Push.Recv[0].Step > c.Push.StartedStep {
+			return c.Push.Recv[0].Step
 		}
 		return c.Push.StartedStep
 	}
